@@ -381,6 +381,62 @@ def rotated_reads(run):
                              signature=dict(kind='read-misplaced'))
 
 
+def edited_block_writes(run):
+    """
+    A block whose mask was looked at, then edited in place through `ra.array[...] = ...` (the idiom of the package's own kernel
+    code; only the setters refresh the cached mask), then written: what is written is the block as it is NOW - window ∩ dataset reads
+    back the edited values, and pixels set to the nodata value read back invalid.  Datasets with the same nodata (NaN), an internal
+    mask (nodata None, integer type) and another numeric nodata.
+    """
+    from homonim.raster_array import RasterArray
+    n, m = 7, 9
+    g = rasters.Grid(8 * 3000, 8 * 5000, 16, 16, m, n)
+    k = 0
+    for look in (False, True):
+        for dtype, dnd in (('float32', float('nan')), ('uint16', None), ('int32', -1), ('float32', -9999.0)):
+            for w in (None, (1, 6, 2, 8)):
+                k += 1
+                case = dict(i=7_700_000 + k, op='write of a block edited in place', mask_read_before_edit=look, dataset_dtype=dtype,
+                            dataset_nodata=None if dnd is None else repr(dnd), window=w)
+                arr = np.array([[r * 10 + c + 1 for c in range(m)] for r in range(n)], dtype='float32')
+                arr[0, :] = np.nan
+                arr[3, 4] = np.nan
+                ra = RasterArray(arr.copy(), rasters.CRS3857, g.transform, nodata=float('nan'))
+                if look:
+                    _ = ra.mask.sum()
+                # the edit: some nodata pixels get values, some valid pixels become nodata
+                ra.array[0, 2:6] = 500.0
+                ra.array[3, 4] = 77.0
+                ra.array[5, 1:4] = np.nan
+                ra.array[2, 7] = np.nan
+                want_valid = np.isfinite(ra.array)
+                want = ra.array.copy()
+                p = run.tmpdir() / 'c20_edit.tif'
+                with rio.Env(GDAL_TIFF_INTERNAL_MASK=True):
+                    with rio.open(p, 'w', driver='GTiff', width=m, height=n, count=1, dtype=dtype, crs=rasters.CRS3857,
+                                  transform=g.transform, nodata=dnd) as ds:
+                        ds.write(np.full((n, m), 9, dtype=dtype), 1)
+                        try:
+                            ra.to_rio_dataset(ds, indexes=1, window=None if w is None else Window(w[2], w[0], w[3] - w[2], w[1] - w[0]))
+                        except Exception as ex:
+                            run.fail(case, f'write raised {type(ex).__name__}: {str(ex)[:80]}', signature=dict(kind='write-raises'))
+                            continue
+                    with rio.open(p) as ds:
+                        back = ds.read(1)
+                        mk = ds.read_masks(1).astype(bool)
+                run.evaluations += 1
+                run.hist['writes of blocks edited in place'] += 1
+                run.nontrivial.add(('edited', k))
+                ww = w if w is not None else (0, n, 0, m)
+                bad = [(r, c) for r in range(ww[0], ww[1]) for c in range(ww[2], ww[3])
+                       if bool(mk[r, c]) != bool(want_valid[r, c]) or (want_valid[r, c] and float(back[r, c]) != float(want[r, c]))]
+                if bad:
+                    r, c = bad[0]
+                    run.fail(case, f'{len(bad)} pixels of the window do not read back as the block holds them, e.g. ({r},{c}): block '
+                             f'{"valid " + str(float(want[r, c])) if want_valid[r, c] else "nodata"}, dataset '
+                             f'{"valid " + str(float(back[r, c])) if mk[r, c] else "invalid"}', signature=dict(kind='edited-block-write'))
+
+
 def near_nodata_io(run):
     """
     Values that are close to, but not equal to, a nodata value are data: a block whose nodata is a number (0, -9999, 3e38) and
@@ -612,6 +668,7 @@ def run_writes(run, rng, quick, idx0):
     idx = mask_writes(run, rng, quick, idx, cases, lines, impls)
     typed_writes(run)
     near_nodata_io(run)
+    edited_block_writes(run)
     rotated_reads(run)
     multiband_and_decimal_writes(run)
     failed = {f['case']['i'] for f in run.failures}
